@@ -449,6 +449,65 @@ func checkTablesFrozen(e *Env, p *load.Program, pkgPath, rule string) {
 			}
 		}
 	}
+	// the same through an alias: the tables of an arch.Info are exported map-valued fields, and a struct copy shares them
+	if pkgPath == load.PkgArch {
+		isTableField := func(v ssa.Value) (string, bool) {
+			for i := 0; i < 6; i++ {
+				switch x := v.(type) {
+				case *ssa.UnOp:
+					if x.Op != token.MUL {
+						return "", false
+					}
+					v = x.X
+				case *ssa.FieldAddr:
+					st, ok := x.X.Type().Underlying().(*types.Pointer).Elem().Underlying().(*types.Struct)
+					if ok && isNamed(x.X.Type().Underlying().(*types.Pointer).Elem(), load.PkgArch, "Info") {
+						if fn := st.Field(x.Field).Name(); fn == "SyscallNumbers" || fn == "SyscallNames" {
+							return fn, true
+						}
+					}
+					return "", false
+				case *ssa.Field:
+					st, ok := x.X.Type().Underlying().(*types.Struct)
+					if ok && isNamed(x.X.Type(), load.PkgArch, "Info") {
+						if fn := st.Field(x.Field).Name(); fn == "SyscallNumbers" || fn == "SyscallNames" {
+							return fn, true
+						}
+					}
+					return "", false
+				case *ssa.ChangeType:
+					v = x.X
+				default:
+					return "", false
+				}
+			}
+			return "", false
+		}
+		for _, f := range funcs {
+			for _, b := range f.Blocks {
+				for _, in := range b.Instrs {
+					var m ssa.Value
+					what := ""
+					switch x := in.(type) {
+					case *ssa.MapUpdate:
+						m, what = x.Map, "an entry is stored into"
+					case *ssa.Call:
+						if bi, ok := x.Call.Value.(*ssa.Builtin); ok && bi.Name() == "delete" && len(x.Call.Args) > 0 {
+							m, what = x.Call.Args[0], "an entry is deleted from"
+						}
+					}
+					if m == nil {
+						continue
+					}
+					if fld, ok := isTableField(m); ok {
+						n++
+						r.Unknown(rule, "Info."+fld+"/written-in/"+load.FuncName(f), p.Pos(in.Pos()),
+							fmt.Sprintf("%s the %s table of an arch.Info in %s: the Info values of the package share their maps with every copy, so this changes the package's table after the other direction (and the oracle comparison) was fixed at initialisation", what, fld, load.FuncName(f)))
+					}
+				}
+			}
+		}
+	}
 	if n == 0 {
 		r.OK(rule, "tables-frozen/"+sp.Pkg.Name(), "", "no function of the package (declared init functions included) writes to a package-level table")
 	}
